@@ -96,7 +96,7 @@ CHECKS = {
             'concurrent request histories against the real cache, judged against the requesting function object; transform counter; gc churn; yield injection',
             'Histories of to_graph / convert / converted_call requests over functions sharing code objects (different cells, '
             'defaults, globals), a redefined module function and ephemeral functions collected mid-run, under 1-32 threads, three '
-            'switch intervals and (thorough) LINE-event yield injection inside transpiler.py/cache.py. Every reply is compared with '
+            'switch intervals and LINE-event yield injection in every function of transpiler.py/cache.py (half of the histories, both tiers); requests made in a DISABLED context, and for every converted_call request whether converted code ran (per-thread operator probe). Every reply is compared with '
             'the native behaviour, globals and cells of the requesting function; generated source must reflect the requested '
             'options; any exception or fallback out of the cache layer is a violation; source transformations per (code object, '
             'options) are counted by a wrapper.',
@@ -120,9 +120,9 @@ CHECKS = {
             'DESIGN.md 3/C12'),
     'C13': ('fault_enumeration',
             'failpoints at every pipeline stage x exception class around the real converted_call, plus transparency/policy monitors',
-            'converted_call is compared with the direct call for 30 callable kinds x argument shapes x option sets x context '
+            'converted_call is compared with the direct call for 38 callable kinds (incl. native callables that share a name with an overloaded builtin) x argument shapes x option sets x context '
             'statuses (result, ordered log, binding, target ran once); the conversion decision is observed through wrapped '
-            'operators and compared with the documented policy table; a fault of each of 9 exception classes is injected at each '
+            'operators and compared with the documented policy table, also for sequences of calls on one callable object under changing context/options (the decision must not depend on earlier calls); a fault of each of 9 exception classes is injected at each '
             'of 23 pipeline stages (and, thorough, at sampled LINE events inside malt/ during conversion): the call must return the '
             "target's result, run it once, warn, and not attempt conversion again on an identical second call; strict mode must raise.",
             'Faults are Exception subclasses raised at stage entry or line boundaries; policy table from functions.md.',
